@@ -3,7 +3,7 @@
 (* Trace validation for Renter (property C10): every outcome recorded by   *)
 (* harness/renterx from the REAL client functions -- one NDJSON line       *)
 (*   {op:"Case", rpc, variant, faults:[{msg,field,how,k}], eff:[...],      *)
-(*    outcome, bound, wire}                                                *)
+(*    samekey, outcome, bound, wire}                                                *)
 (* per executed case -- must be a member of the fault space of Renter.tla  *)
 (* (Plans), obey its acceptance rule (Allowed, applied to the faults that  *)
 (* actually changed the bytes on the wire: eff) and satisfy the invariants *)
@@ -31,10 +31,11 @@ TCase ==
     /\ Ev.variant \in VariantsOf(Ev.rpc)
     /\ LET p == ToSet(Ev.faults)
            e == ToSet(Ev.eff)
-       IN  /\ InPlans(Ev.rpc, p)            \* the case is one TLC enumerated (= p \in Plans(Ev.rpc))
+       IN  /\ Ev.samekey \in KeyRegimes(Ev.rpc) /\ RegimeOK(Ev.samekey, p)
+           /\ InPlans(Ev.rpc, p)            \* the case is one TLC enumerated (= p \in Plans(Ev.rpc))
            /\ e \subseteq p
            /\ Ev.outcome \in Allowed(Ev.rpc, e)   \* ok | err only: a panic is never explained
-           /\ rpc' = Ev.rpc /\ variant' = Ev.variant /\ plan' = e
+           /\ rpc' = Ev.rpc /\ variant' = Ev.variant /\ samekey' = Ev.samekey /\ plan' = e
            /\ pos' = Len(Msgs(Ev.rpc))
            /\ outcome' = Ev.outcome
            /\ bound' = Ev.bound
